@@ -45,6 +45,9 @@ type scanModel struct {
 	HasEncInit bool
 	HasEncode  bool
 	HasCtxInit bool
+	// EncodeInto, the exported entry point that encodes into memory supplied by the caller:
+	// "buf" = EncodeInto(value, []byte), "wire" = EncodeInto(value, enc.Wire), "" = not generated
+	EncodeInto string
 	PubEncode  bool
 	PubBytes   bool
 	PubParse   bool
@@ -222,6 +225,21 @@ func scanRepo(root string) (*scanResult, error) {
 					get(strings.TrimSuffix(rt, "Encoder")).HasEncInit = true
 				case rt != "" && strings.HasSuffix(rt, "Encoder") && dd.Name.Name == "Encode":
 					get(strings.TrimSuffix(rt, "Encoder")).HasEncode = true
+				case rt != "" && strings.HasSuffix(rt, "Encoder") && dd.Name.Name == "EncodeInto" && dd.Type.Params.NumFields() == 2:
+					var pt ast.Expr
+					if l := dd.Type.Params.List; len(l) == 2 {
+						pt = l[1].Type
+					}
+					switch t := pt.(type) {
+					case *ast.ArrayType:
+						if id, ok := t.Elt.(*ast.Ident); ok && t.Len == nil && id.Name == "byte" {
+							get(strings.TrimSuffix(rt, "Encoder")).EncodeInto = "buf"
+						}
+					case *ast.SelectorExpr:
+						if t.Sel.Name == "Wire" {
+							get(strings.TrimSuffix(rt, "Encoder")).EncodeInto = "wire"
+						}
+					}
 				case rt != "" && dd.Name.Name == "Encode" && dd.Type.Params.NumFields() == 0:
 					get(rt).PubEncode = true
 				case rt != "" && dd.Name.Name == "Bytes" && dd.Type.Params.NumFields() == 0:
@@ -375,6 +393,15 @@ func registrySource(res *scanResult) string {
 		fmt.Fprintf(&b, "\t\t\tInit: func(e, v any) { e.(*%s.%sEncoder).Init(v.(*%s.%s)) },\n", a, m.Name, a, m.Name)
 		fmt.Fprintf(&b, "\t\t\tEncode: func(e, v any) enc.Wire { return e.(*%s.%sEncoder).Encode(v.(*%s.%s)) },\n", a, m.Name, a, m.Name)
 		fmt.Fprintf(&b, "\t\t\tParse: func(r enc.ParseReader, ic bool) (any, error) {\n\t\t\t\tc := &%s.%sParsingContext{}\n\t\t\t\tc.Init()\n\t\t\t\tv, err := c.Parse(r, ic)\n\t\t\t\tif v == nil {\n\t\t\t\t\treturn nil, err\n\t\t\t\t}\n\t\t\t\treturn v, err\n\t\t\t},\n", a, m.Name)
+		switch m.EncodeInto {
+		case "buf":
+			fmt.Fprintf(&b, "\t\t\tEncodeIntoBuf: func(e, v any, buf []byte) { e.(*%s.%sEncoder).EncodeInto(v.(*%s.%s), buf) },\n", a, m.Name, a, m.Name)
+		case "wire":
+			fmt.Fprintf(&b, "\t\t\tEncodeIntoWire: func(e, v any, w enc.Wire) { e.(*%s.%sEncoder).EncodeInto(v.(*%s.%s), w) },\n", a, m.Name, a, m.Name)
+		}
+		fmt.Fprintf(&b, "\t\t\tNewCtx: func() any { return &%s.%sParsingContext{} },\n", a, m.Name)
+		fmt.Fprintf(&b, "\t\t\tCtxInit: func(c any) { c.(*%s.%sParsingContext).Init() },\n", a, m.Name)
+		fmt.Fprintf(&b, "\t\t\tCtxParse: func(c any, r enc.ParseReader, ic bool) (any, error) {\n\t\t\t\tv, err := c.(*%s.%sParsingContext).Parse(r, ic)\n\t\t\t\tif v == nil {\n\t\t\t\t\treturn nil, err\n\t\t\t\t}\n\t\t\t\treturn v, err\n\t\t\t},\n", a, m.Name)
 		if m.PubEncode {
 			fmt.Fprintf(&b, "\t\t\tPubEncode: func(v any) enc.Wire { return v.(*%s.%s).Encode() },\n", a, m.Name)
 		}
